@@ -70,6 +70,8 @@ def check_C11(ctx, rep):
         same = None
         try:
             ta = H.tree_of(fa, a, "op", max_nodes=4000); tb = H.tree_of(fb, b, "op", max_nodes=4000)
+            # the fma provider is abstracted here (it is the subject of R5)
+            ta = vg.map_tree(ta, norm.strip_provider); tb = vg.map_tree(tb, norm.strip_provider)
             same = ta == tb
             n_tree += 1
             how = "op-level decision trees identical"
